@@ -124,7 +124,7 @@ def generate(repo):
     if (m.group(1), m.group(5), m.group(6)) != ("16", "true", "true"):
         raise AnchorError("decode_packet: CRC is no longer a reflected 16-bit CRC")
     N("dp_crc_poly", cint(m.group(2))); N("dp_crc_init", cint(m.group(3))); N("dp_crc_xorout", cint(m.group(4)))
-    m = find1(r"if\s*\(checksum\s*==\s*(\w+)\)", b, "packet CRC residue")
+    m = find1(r"if\s*\(\s*\w+\s*==\s*(0[xX][0-9a-fA-F]+)\s*\)", b, "packet CRC residue")
     N("dp_crc_residue", cint(m.group(1)))
     hf = body_of(d, r"bool\s+handle_frame\s*\([^)]*\)\s*\{", "handle_frame")
     m = find1(r"case\s+FrameType::BASIC_PACKET:\s*result\s*=\s*(\w+)\(frame\.packet\);", hf, "handle_frame BASIC_PACKET")
